@@ -126,6 +126,7 @@ def gen(rng, tier, dist):
         t = pc.gen_tree(rng, depth, dirty, maxports=rng.choice([2, 3, 4, 5, 6]))
         et = pc.enc_tree(t)
         bump(dist, "tree-depth-%d-%s" % (depth, "dirty" if dirty else "clean"))
+        bump(dist, "names_ok-trees", 1 if pc.names_ok(t) else 0)
         walked = pc.spec_walk(t)
         subs = pc.subtrees(t)
         # lookup: walked addresses (capped) + mutations
@@ -223,8 +224,9 @@ def spec_check(case, impl):
         addrs = [unhx(a) for a in f[2].split(";")]
         got = impl.split(" ")[0][2:].split(";")
         want = {}
+        nok = pc.names_ok(t)          # the decidable hypothesis of C18_lookup
         for ids, a, ok, p in pc.spec_walk(t):
-            if ok and pc.n_hash(p['segs']) <= 1:
+            if nok or (ok and pc.n_hash(p['segs']) <= 1):
                 want[a] = pc.show_id(ids)
         for a, g in zip(addrs, got):
             if a in want and g != want[a]:
@@ -271,6 +273,11 @@ def spec_check(case, impl):
 
 def canon(case, line):
     f = case.split(" ")
+    if f[0] == "lookup" and line.startswith("a="):
+        # names_ok: extracted Coq function (model line) vs the generator's mirror (implementation line)
+        if " ok=" in line:
+            return line
+        return line + " ok=%d" % (1 if pc.names_ok(pc.dec_tree(f[1])) else 0)
     if f[0] == "search" and line.startswith("q="):
         m = dict(x.split("=", 1) for x in line.split(" "))
         raw = parse_entries(m["e"])
